@@ -34,8 +34,9 @@ def restrict(f3, keep):
 def one_input(args):
     seed, idx, workroot = args
     rng = random.Random(seed * 92821 + idx)
-    inp = pipecases.make_input(rng, n_refs=3, n_qry=9, ref_labels=(60, 130), small_ids=(idx % 2 == 1),
-                               kinds=["split", "noisy", "split", "mirror", "dropped", "chimeric", "partial", "exact", "junk"],
+    inp = pipecases.make_input(rng, n_refs=3, n_qry=9 + (idx % 3 == 0), ref_labels=(60, 130), small_ids=(idx % 2 == 1),
+                               kinds=["split", "noisy", "toolong", "split", "mirror", "dropped", "chimeric", "partial", "exact", "junk"][:9 + (idx % 3 == 0)] if idx % 3 == 0 else
+                                     ["split", "noisy", "split", "mirror", "dropped", "chimeric", "partial", "exact", "junk"],
                                short_contigs=1)    # + a contig shorter than most molecules, with a molecule of its own
     dup = None
     if idx % 2 == 0:
@@ -65,6 +66,10 @@ def one_input(args):
             keep = [q for q in keep if q != qids[0]][:-1]
         else:
             keep = keep[:-2]
+        # every third input holds a molecule longer than every reference (no seed at all): it is one of the removed ones
+        toolong = [q["id"] for q in inp["qrys"] if q["kind"] == "toolong"]
+        if toolong and toolong[0] in keep:
+            keep = [q for q in keep if q != toolong[0]]
         rp1, qp1 = pipecases.write_input(wd, inp, "v1", qsel=set(keep), qorder=keep)
         v1 = pipecases.run_once(wd, rp1, qp1, "v1", mode, extra)
         status["removed_reordered"] = v1["status"]
